@@ -212,9 +212,12 @@ def run_history(case):
             for i, c in enumerate(calls):
                 _check_result(c, i, out, where)
             pend = {c.serial for c in calls if c.expected is None}
-            table = set(getattr(rig.conn, '_pendingCalls', {}).keys())
-            if table != pend:
-                out.append(Disc('pending-table', '%s: bookkeeping %r, still pending %r' % (where, sorted(table), sorted(pend))))
+            raw_table = getattr(rig.conn, '_pendingCalls', None)     # the bookkeeping named in the property's anchors
+            if raw_table is not None:
+                table = set(raw_table.keys())
+                if table - pend:
+                    out.append(Disc('pending-table', '%s: bookkeeping left for completed calls %r (still pending %r)' % (
+                        where, sorted(table - pend), sorted(pend))))
             timers = sorted(dc.getTime() for dc in rig.clock.getDelayedCalls())
             want = sorted(c.deadline for c in calls if c.expected is None and c.deadline is not None)
             if timers != want:
